@@ -120,6 +120,7 @@ def build(case):
 
 def run_history(case, unfold=False):
     ds, coords, Grid = build(case)
+    pristine = ds.copy(deep=True)
     calls = case["calls"]
     outs = []
     k = case["ctor_n"]
@@ -164,13 +165,22 @@ def run_history(case, unfold=False):
                 q.append([list(axes), p, [float(v) for v in m.values.ravel()], list(m.dims)])
             except Exception as e:
                 q.append([list(axes), p, type(e).__name__, None])
-    return {"reg": reg, "outs": outs, "queries": q}
+    # every slot holds the registered VARIABLE -- its values as they were in the dataset when the Grid was
+    # built, not only its name -- and the dataset itself is as it was
+    import numpy as np
+    values_ok = all(m.name in pristine and m.dtype == pristine[m.name].dtype and
+                    np.array_equal(m.transpose(*pristine[m.name].dims).values, pristine[m.name].values)
+                    for lst in g._metrics.values() for m in lst)
+    ds_ok = all(ds[v].dtype == pristine[v].dtype and np.array_equal(ds[v].values, pristine[v].values)
+                for v in pristine.variables)
+    return {"reg": reg, "outs": outs, "queries": q, "values_ok": bool(values_ok and ds_ok)}
 
 
 def run_impl(case):
     a = run_history(case, unfold=False)
     b = run_history(case, unfold=True)
-    a["unfold_same"] = (a["reg"] == b["reg"] and a["outs"] == b["outs"] and a["queries"] == b["queries"])
+    a["unfold_same"] = (a["reg"] == b["reg"] and a["outs"] == b["outs"] and a["queries"] == b["queries"]
+                        and a["values_ok"] and b["values_ok"])
     if not a["unfold_same"]:
         a["unfolded"] = {"reg": b["reg"], "outs": b["outs"]}
     return a
